@@ -169,45 +169,75 @@ IntBitsR(d, acc) ==          \* d without leading zeros; most significant bit fi
   ELSE LET h == Half(d) IN IntBitsR(StripLead(h.q), <<h.r>> \o acc)
 IntBits(ip) == IntBitsR(ip, <<>>)
 
-(* 2 * 0.d = c + 0.d' *)
+(* 2 * 0.d = c + 0.d'   - the definition, digit by digit *)
 Dbl(d) == [d |-> [i \in 1..Len(d) |-> (2 * d[i] + (IF i < Len(d) /\ d[i + 1] >= 5 THEN 1 ELSE 0)) % 10],
            c |-> IF d # <<>> /\ d[1] >= 5 THEN 1 ELSE 0]
-RECURSIVE FracBitsR(_, _, _)
-FracBitsR(d, n, acc) ==      \* at most n binary digits of 0.d; done = the expansion terminated
+RECURSIVE FracBitsRef(_, _, _)
+FracBitsRef(d, n, acc) ==    \* at most n binary digits of 0.d; done = the expansion terminated
   IF \A i \in 1..Len(d) : d[i] = 0 THEN [bits |-> acc, done |-> TRUE]
   ELSE IF n = 0 THEN [bits |-> acc, done |-> FALSE]
-  ELSE LET x == Dbl(d) IN FracBitsR(x.d, n - 1, Append(acc, x.c))
+  ELSE LET x == Dbl(d) IN FracBitsRef(x.d, n - 1, Append(acc, x.c))
 
-(* Decided only for numerals of bounded size (<= 40 integer digits, <= 160 fraction digits); a    *)
-(* k-digit decimal fraction is dyadic iff k doublings clear it, and then its last digit is 5.      *)
-BinaryOf(m) ==
-  IF Len(m.ip) > 40 \/ Len(m.fp) > 160 \/ (m.fp # <<>> /\ m.fp[Len(m.fp)] # 5)
-  THEN [known |-> FALSE]
+(* the same on limbs of 8 decimal digits (8 times fewer steps; MC_Numeral shows both equal) *)
+Limb == 100000000
+RECURSIVE LimbVal(_, _, _)
+LimbVal(d, a, b) == IF a > b THEN 0 ELSE 10 * LimbVal(d, a, b - 1) + (IF b <= Len(d) THEN d[b] ELSE 0)
+ToLimbs(d) == [i \in 1..((Len(d) + 7) \div 8) |-> LimbVal(d, 8 * i - 7, 8 * i)]
+DblL(L) == [d |-> [i \in 1..Len(L) |-> (2 * L[i] + (IF i < Len(L) /\ L[i + 1] >= Limb \div 2 THEN 1 ELSE 0)) % Limb],
+            c |-> IF L # <<>> /\ L[1] >= Limb \div 2 THEN 1 ELSE 0]
+RECURSIVE FracBitsL(_, _, _)
+FracBitsL(L, n, acc) ==
+  IF \A i \in 1..Len(L) : L[i] = 0 THEN [bits |-> acc, done |-> TRUE]
+  ELSE IF n = 0 THEN [bits |-> acc, done |-> FALSE]
+  ELSE LET x == DblL(L) IN FracBitsL(x.d, n - 1, Append(acc, x.c))
+FracBitsR(d, n, acc) == FracBitsL(ToLimbs(d), n, acc)
+
+(* ---- is the numeral a double? ------------------------------------------------------------------ *)
+(* digit sequences without leading zeros, compared as integers *)
+DLess(a, b) ==
+  \/ Len(a) < Len(b)
+  \/ /\ Len(a) = Len(b)
+     /\ \E i \in 1..Len(a) : a[i] < b[i] /\ \A j \in 1..i - 1 : a[j] = b[j]
+Two53 == <<9, 0, 0, 7, 1, 9, 9, 2, 5, 4, 7, 4, 0, 9, 9, 2>>
+TrailZeros(d) == Len(d) - SetMax({i \in 1..Len(d) : d[i] # 0})          \* d # 0
+RECURSIVE OddPartR(_, _)
+OddPartR(d, z) ==            \* d = m * 2^z with m odd   (d # 0)
+  IF d[Len(d)] % 2 = 1 THEN [m |-> d, z |-> z] ELSE OddPartR(StripLead(Half(d).q), z + 1)
+
+NotExact == [exact |-> FALSE]
+ManOf(bits, first) == [i \in 1..52 |-> IF first + i <= Len(bits) THEN bits[first + i] ELSE 0]
+(* An integer N is a double iff its odd part is below 2^53.  N = N' * 10^t has odd part >= 5^t, and  *)
+(* 5^23 > 2^53, so more than 22 trailing decimal zeros already decide.  Decided for <= 60 digits.    *)
+ExactInt(ip) ==
+  IF Len(ip) > 60 \/ TrailZeros(ip) > 22 THEN NotExact
+  ELSE LET o == OddPartR(ip, 0) IN
+       IF ~DLess(o.m, Two53) THEN NotExact
+       ELSE LET b == IntBits(o.m) IN [exact |-> TRUE, e2 |-> o.z + Len(b) - 1, man |-> ManOf(b, 1)]
+(* A non-integer double is below 2^53 (<= 16 integer digits); a k-digit decimal fraction is dyadic    *)
+(* iff k doublings clear it, and then its last digit is 5.  Decided for <= 160 fraction digits: the   *)
+(* binary expansion integer bits . fraction bits must span at most 53 bits.                          *)
+ExactFrac(m) ==
+  IF Len(m.ip) > 16 \/ Len(m.fp) > 160 \/ m.fp[Len(m.fp)] # 5 THEN NotExact
   ELSE LET fb == FracBitsR(m.fp, Len(m.fp), <<>>) IN
-       IF ~fb.done THEN [known |-> FALSE]
-       ELSE [known |-> TRUE, ib |-> IntBits(m.ip), fb |-> fb.bits]
-
-(* the numeral is a normal double: its binary expansion spans at most 53 bits *)
-ExactInfo(m) ==
-  LET b == BinaryOf(m) IN
-  IF IsZeroN(m) \/ ~b.known THEN [exact |-> FALSE]
-  ELSE LET all   == b.ib \o b.fb
-           ones  == {i \in 1..Len(all) : all[i] = 1}
-           first == SetMin(ones)
-           last  == SetMax(ones)
-           e2    == Len(b.ib) - first            \* value = 1.xxx * 2^e2
-       IN IF last - first + 1 > 53 \/ e2 < -1022 \/ e2 > 1023 THEN [exact |-> FALSE]
-          ELSE [exact |-> TRUE, e2 |-> e2,
-                man |-> [i \in 1..52 |-> IF first + i <= Len(all) THEN all[first + i] ELSE 0]]
+       IF ~fb.done THEN NotExact
+       ELSE LET ib    == IntBits(m.ip)
+                all   == ib \o fb.bits
+                ones  == {i \in 1..Len(all) : all[i] = 1}
+                first == SetMin(ones)
+                last  == SetMax(ones)
+            IN IF last - first + 1 > 53 THEN NotExact
+               ELSE [exact |-> TRUE, e2 |-> Len(ib) - first, man |-> ManOf(all, first)]   \* 1.xxx * 2^e2
+(* [exact, e2, man]: the numeral is the normal double 1.man * 2^e2 (FALSE also means "not decided") *)
+ExactInfo(m) == IF IsZeroN(m) THEN NotExact ELSE IF m.fp = <<>> THEN ExactInt(m.ip) ELSE ExactFrac(m)
 IsExactDouble(m) == ExactInfo(m).exact
 
 RECURSIVE BitsVal(_, _, _)
 BitsVal(b, i, j) == IF i > j THEN 0 ELSE 2 * BitsVal(b, i, j - 1) + b[j]
 (* IEEE-754 binary64 encoding of an exact numeral as four 16-bit words *)
-BitsOf(m) ==
-  LET x == ExactInfo(m) IN
-  << (IF m.neg THEN 32768 ELSE 0) + (x.e2 + 1023) * 16 + BitsVal(x.man, 1, 4),
+BitsOfX(neg, x) ==           \* x = ExactInfo(m), x.exact
+  << (IF neg THEN 32768 ELSE 0) + (x.e2 + 1023) * 16 + BitsVal(x.man, 1, 4),
      BitsVal(x.man, 5, 20), BitsVal(x.man, 21, 36), BitsVal(x.man, 37, 52) >>
+BitsOf(m) == BitsOfX(m.neg, ExactInfo(m))
 
 (* ---- reading logged bit patterns --------------------------------------------------------------- *)
 BSign(w)  == w[1] >= 32768
@@ -225,17 +255,19 @@ WellFormedBits(w) == Len(w) = 4 /\ \A i \in 1..4 : w[i] \in 0..65535
 (*            nearest double need not be the numeral; XPath prints the double's own integer value,     *)
 (*            which agrees with the numeral when rounded to 15 digits (T2) and must read back equal    *)
 (*   "loose"  more than 15 significant digits / outside the normal range: grammar and round trip only  *)
+(* m = Norm(Parse(s)), x = ExactInfo(m) (evaluated once by the caller) *)
+SnExpectM(m, x) ==
+  IF IsZeroN(m) \/ Underflows(m) THEN [k |-> "exact", str |-> StrZero]
+  ELSE IF Overflows(m) THEN [k |-> "exact", str |-> IF m.neg THEN StrNegInf ELSE StrInf]
+  ELSE IF SigDigits(m) <= 15 /\ InNormalRange(m)
+       THEN IF IsIntN(m) /\ Len(m.ip) > 15 /\ ~x.exact
+            THEN [k |-> "int15", str |-> CanonN(m)]
+            ELSE [k |-> "exact", str |-> CanonN(m)]
+  ELSE IF IsIntN(m) /\ x.exact THEN [k |-> "exact", str |-> CanonN(m)]   \* an integer double prints as itself
+  ELSE [k |-> "loose", neg |-> m.neg]
 SnExpect(s) ==
   IF ~IsNumber(s) THEN [k |-> "exact", str |-> StrNaN]
-  ELSE LET m == Norm(Parse(s)) IN
-       IF IsZeroN(m) \/ Underflows(m) THEN [k |-> "exact", str |-> StrZero]
-       ELSE IF Overflows(m) THEN [k |-> "exact", str |-> IF m.neg THEN StrNegInf ELSE StrInf]
-       ELSE IF SigDigits(m) <= 15 /\ InNormalRange(m)
-            THEN IF IsIntN(m) /\ Len(m.ip) > 15 /\ ~IsExactDouble(m)
-                 THEN [k |-> "int15", str |-> CanonN(m)]
-                 ELSE [k |-> "exact", str |-> CanonN(m)]
-       ELSE IF IsIntN(m) /\ IsExactDouble(m) THEN [k |-> "exact", str |-> CanonN(m)]   \* an integer double prints as itself
-       ELSE [k |-> "loose", neg |-> m.neg]
+  ELSE LET m == Norm(Parse(s)) IN SnExpectM(m, ExactInfo(m))
 
 (* t is an integer string that agrees with the integer numeral string c to 15 significant digits *)
 AgreesTo15(t, c) ==
@@ -248,6 +280,7 @@ AgreesTo15(t, c) ==
 
 (* Is the argument numeral one for which round/floor/ceiling of the nearest double is the         *)
 (* round/floor/ceiling of the numeral (T1, or the numeral is a double)?                            *)
-RoundDecided(m) == IsZeroN(m) \/ (SigDigits(m) <= 15 /\ InNormalRange(m)) \/ IsExactDouble(m)
+RoundDecidedX(m, x) == IsZeroN(m) \/ (SigDigits(m) <= 15 /\ InNormalRange(m)) \/ x.exact
+RoundDecided(m) == RoundDecidedX(m, ExactInfo(m))
 FnN(f, m) == CASE f = "round" -> RoundN(m) [] f = "floor" -> FloorN(m) [] f = "ceiling" -> CeilN(m)
 =============================================================================
